@@ -8,7 +8,7 @@
 #
 # variants:
 #   c-san    clang -O1 ASan+UBSan, libc allocation symbols redirected to verif_*
-#   c-plain  clang -O2, allocation symbols redirected, no sanitizer
+#   c-plain / cxx-plain  no sanitizer, release configuration (asserts off), allocation symbols redirected: the valgrind tier of C12
 #   c-fuzz   c-san + -fsanitize=fuzzer-no-link
 #   cxx-san  libyaep++ (C++ containers), ASan+UBSan, partially linked so that it
 #            can live in one process with libyaep
@@ -20,15 +20,16 @@ ROOT=$(cd "$(dirname "$0")/.." && pwd)
 SAN="-fsanitize=address,undefined -fno-sanitize=pointer-overflow -fno-sanitize-recover=undefined -fno-omit-frame-pointer"
 case "$V" in
   c-san)   CC=clang;   FL="-O1 -g $SAN";;
-  c-plain) CC=clang;   FL="-O2 -g";;
+  c-plain) CC=clang;   FL="-O1 -g -gdwarf-4";;
   c-fuzz)  CC=clang;   FL="-O1 -g $SAN -fsanitize=fuzzer-no-link";;
   cxx-san) CC=clang++; FL="-O1 -g $SAN -std=gnu++11 -Wno-deprecated -Wno-writable-strings -Wno-register";;
+  cxx-plain) CC=clang++; FL="-O1 -g -gdwarf-4 -std=gnu++11 -Wno-deprecated -Wno-writable-strings -Wno-register";;
   *) echo "unknown variant $V" >&2; exit 2;;
 esac
 FL="$FL -DYAEP_VERIF -w"
 # internal assertions of yaep.c on (yaep.c defines NDEBUG itself unless YAEP_DEBUG is given; the repository's own test
 # programs are compiled with -DYAEP_DEBUG): a failing assertion is an abort of the library, i.e. a verdict of the checks
-[ "$V" != c-plain ] && FL="$FL -DYAEP_DEBUG"
+[ "$V" != c-plain ] && [ "$V" != cxx-plain ] && FL="$FL -DYAEP_DEBUG"
 KEY=$( (cat "$REPO"/src/*.c "$REPO"/src/*.h "$REPO"/src/*.cpp "$REPO"/src/*.y; echo "$V $FL"; cat "$0") | sha256sum | cut -c1-16)
 OUT="$ROOT/build/lib/$V-$KEY"
 if [ -f "$OUT/.done" ]; then echo "$OUT"; exit 0; fi
@@ -39,7 +40,7 @@ TMP="$OUT.tmp.$$"; rm -rf "$TMP"; mkdir -p "$TMP"
 cd "$TMP"
 bison -o sgramm.c "$REPO/src/sgramm.y" 2>bison.log || { cat bison.log >&2; exit 2; }
 REDEF="--redefine-sym malloc=verif_malloc --redefine-sym calloc=verif_calloc --redefine-sym realloc=verif_realloc --redefine-sym free=verif_free"
-if [ "$V" = cxx-san ]; then
+if [ "$V" = cxx-san ] || [ "$V" = cxx-plain ]; then
   pids=""
   for f in hashtab objstack vlobject yaep; do
     $CC $FL -I"$REPO/src" -I. -c "$REPO/src/$f.cpp" -o $f.xx.o 2>$f.log & pids="$pids $!"
